@@ -18,10 +18,11 @@ def cases_of(c):
 
 
 def run_oracle(ctx, c, pid, known, exempt_model_marked=False):
-    """Independent reference over implementation replies.  Lines the model attributes to a LISTED
-    finding are skipped (and make the oracle forget the keys involved).  Returns
-    (checked_lines, deviations) and records a violation for the first deviation."""
-    checked, devs = 0, []
+    """Independent reference over implementation replies, ALWAYS run (also when implementation and
+    model disagree somewhere: then each case is judged up to its first mismatching line).  Lines the
+    model attributes to a LISTED finding are skipped (the oracle forgets the keys involved).
+    Returns (evaluated_lines, deviations, stats) and records a violation for the first deviation."""
+    devs, stats = [], {}
     raw = []
     if exempt_model_marked:
         try:
@@ -29,47 +30,45 @@ def run_oracle(ctx, c, pid, known, exempt_model_marked=False):
                 raw = f.read().split("\n")
         except OSError:
             raw = []
+    mism = set(c.mismatch)
     for cs in cases_of(c):
-        ops = [c.ops[i] for i in cs]
-        impl = [c.impl[i] if i < len(c.impl) else "<missing>" for i in cs]
-        skip = set()
+        cut = len(cs)
         for j, i in enumerate(cs):
+            if i in mism:
+                cut = j + 1           # the mismatching line itself is still an implementation reply
+                break
+        ops = [c.ops[i] for i in cs[:cut]]
+        impl = [c.impl[i] if i < len(c.impl) else "<missing>" for i in cs[:cut]]
+        skip = set()
+        for j, i in enumerate(cs[:cut]):
+            if i in mism:
+                continue
             fl = c.flags[i] if i < len(c.flags) else []
             if fl and all(f in known for f in fl):
                 skip.add(j)
             elif exempt_model_marked and i < len(raw) and "\t#D:" in raw[i]:
                 skip.add(j)
-        bad = kvspec.check_case(ops, impl, skip)
-        checked += len(cs) - 1
+        bad = kvspec.check_case(ops, impl, skip, stats)
         for (j, op, exp, got) in bad:
             devs.append({"case": ops[0], "line": j, "op": op, "expected": exp, "got": got,
                          "ops": ops[:j + 1], "impl": impl[:j + 1]})
     if devs:
         d = devs[0]
-        ctx.violation("Spec oracle (independent reference over implementation replies): `%s` answered `%s`, documented semantics give `%s`"
+        ctx.violation("implementation violates the property (independent reference over its replies): `%s` answered `%s`, documented semantics give `%s`"
                       % (d["op"], d["got"], d["expected"]),
                       {"correspondence": pid, "ops": d["ops"], "impl": d["impl"], "expected": d["expected"],
-                       "deviations": len(devs)}, tag="oracle")
-    return checked, devs
+                       "deviations": len(devs)}, tag="impl")
+    return stats.get("evaluated", 0), devs, stats
 
 
 def spec_violated_factory(known, ctx=None):
     """for report_mismatch: does the implementation's reply at the mismatching line contradict the
-    reference?  (rep has ops/impl/model of the case up to the mismatch.)  Lines of that case which the
-    model attributes to listed findings are handed to the oracle as accounted for."""
+    reference?  rep has ops/impl/model/flags of the case up to the mismatch; lines the model
+    attributes to listed findings are handed to the oracle as accounted for."""
     def spec_violated(rep):
         ops, impl = rep["ops"], rep["impl"]
-        skip = set()
-        mf = getattr(ctx, "mismatch_first", None) if ctx is not None else None
-        if mf is not None:
-            _, _, c, i = mf
-            cs = K.case_of(c, i)
-            for j, li in enumerate(cs):
-                if li >= i:
-                    break
-                fl = c.flags[li] if li < len(c.flags) else []
-                if fl and all(f in known for f in fl):
-                    skip.add(j)
+        flags = rep.get("flags") or []
+        skip = {j for j, fl in enumerate(flags[:-1]) if fl and all(f in known for f in fl)}
         bad = kvspec.check_case(ops, impl, skip)
         for (j, op, exp, got) in bad:
             if j == len(ops) - 1:
